@@ -1,5 +1,5 @@
 \* quick: 2 features x 2 targets, unbuffered channels, 2 tables in sequence; all 16 outcome maps per run
 CONSTANTS N = 2  Targets = {1, 2}  Cap = 0  NT = 2  NChoices = {0, 2}  TgChoices = {{1, 2}}
 SPECIFICATION Spec
-INVARIANTS TypeOK C10_Prefix C10_AtReturn C11_ReturnAfterDone C11_WriterTable NoSendOnClosed
-PROPERTIES C11_TableStable C11_Terminates
+INVARIANTS TypeOK C10_Prefix C10_AtReturn C11_ReturnAfterDone C11_WriterTable NoSendOnClosed IntInvHolds
+PROPERTIES C11_TableStable C11_Terminates RefinesInt
